@@ -181,10 +181,10 @@ def generate(seed, tier):
     rng0.shuffle(cases)
     rng0.shuffle(rinit)
     rng0.shuffle(late)
-    nr = 6 if tier == "quick" else 60
+    nr = 8 if tier == "quick" else 60
     two = [c for c in late if "late2" in c["id"]]
     late = two[: nr // 2] + [c for c in late if "late2" not in c["id"]]
-    return rinit[:nr] + late[:nr] + cases[: (26 if tier == "quick" else 400)]
+    return rinit[:nr] + late[:nr] + cases[: (40 if tier == "quick" else 400)]
 
 
 def worker_init(tier):
